@@ -95,6 +95,7 @@ def run(ctx, compare=True, n_pd=None, n_ilp=None):
             if not cfg["res"] and n_opt >= 2:
                 ctx.nontrivial.add(case.key() + "ilp")
             ctx.sample(f"maxw-ilp {json.dumps(ruleprops.cfg_json(cfg))} on {case.enc_common()} -> {ans}", cap=8)
+        run_nofree(ctx, box, ctx.scale(40, 300) if n_ilp else 0)  # D46: nothing left to decide
         # round 4 (drawn last: the seeds of the streams above are unchanged)
         run_satprofile(ctx, box, m_hi, ctx.scale(700, 6000), ctx.scale(90, 800) if n_ilp else 0)
         run_negscores(ctx, box, m_hi, ctx.scale(900, 8000), ctx.scale(110, 900) if n_ilp else 0, compare)  # D45 (drawn after everything above)
@@ -125,6 +126,40 @@ def judge_ilp(case, cfg, ans):
     if got != opt_sets:
         return [violation("irresolute ILP outcomes are not exactly the set of optima", case, cfg, impl=got, expected=opt_sets, sig=sig)], len(arg)
     return [], len(arg)
+
+
+def run_nofree(ctx, box, n):
+    """D46: no project left to decide (every project in the initial allocation, or an instance without projects) — the optimum
+    is the initial allocation itself, for both algorithms, resolute and irresolute (python-mip refuses a model without
+    variables; that is not a solver fault, the solver is never reached)"""
+    import random
+
+    rng = random.Random(ctx.rng.getrandbits(48))
+    for k in range(n):
+        if ctx.budget_s is not None and ctx.elapsed() > ctx.budget_s:
+            break
+        case = core.gen_election(rng, btypes=("app", "app", "card", "cum", "ord"), m_lo=0, m_hi=3)
+        cfg = rulegen.gen_rule_cfg(rng, case, rules=("maxw",), allow_refuse=False)
+        if k % 3 == 2:
+            case = Case([], case.budget, case.btype, [{} if case.btype in ("card", "cum") else [] for _ in case.ballots], case.seed)
+            cfg = rulegen.gen_rule_cfg(rng, case, rules=("maxw",), allow_refuse=False)
+            cfg["init"] = []
+        else:
+            tot = sum(case.cost.values(), F(0))
+            if tot > case.budget:
+                case = Case(case.projects, tot + (k % 2), case.btype, case.ballots, case.seed)
+            cfg["init"] = list(case.names)
+        cfg = dict(cfg, algo="ilp", res=bool(k % 2))
+        ans = box.ask({"case": case.to_json(), "cfg": ruleprops.cfg_json(cfg)})
+        ctx.evaluations += 1
+        ctx.count("rule", "maxw-ilp-nothing-to-decide-" + ("res" if cfg["res"] else "irres"))
+        if ans.startswith("solver-fault"):
+            ctx.solver_faults += 1
+            continue
+        vs, _ = judge_ilp(case, cfg, ans)
+        ctx.violations.extend(vs)
+        if case.names:
+            ctx.nontrivial.add(case.key() + "ilp-nofree" + str(cfg["res"]))
 
 
 def satprofile_pairs(ctx, n, m_hi):
